@@ -85,10 +85,22 @@ def _worker(args):
         sig = v["signature"]
         if sig not in confirmed:
             try:
-                again = mod.replay(v["scenario"], Ctx())
-                confirmed[sig] = any(a["signature"] == sig for a in again)
+                if sig.startswith("hang"):
+                    # a hang is a run that never ends, not one that is slow on a busy machine: the re-execution gets six
+                    # times the time limit (a deadlock or endless loop is still there after two minutes)
+                    core.TIMEOUT_SCALE = 6.0
+                # up to three re-executions: code under test that races inside the process (threads the seam does not
+                # schedule) reproduces a violation only some of the time
+                confirmed[sig] = False
+                for _attempt in range(1 if sig.startswith("hang") else 3):
+                    again = mod.replay(v["scenario"], Ctx())
+                    if any(a["signature"] == sig for a in again):
+                        confirmed[sig] = True
+                        break
             except Exception:
                 confirmed[sig] = False
+            finally:
+                core.TIMEOUT_SCALE = 1.0
             if not confirmed[sig]:
                 if sig.startswith("hang"):
                     # a run that exceeded the time limit once and finishes in time when repeated was slowed down by the
@@ -182,7 +194,9 @@ def write_evidence(pid, mod, tier, seed, wall, agg, n_cases, n_done, viol_total,
         "fault_sites": sorted(agg["sites"])[:200],
         "post_state_classes": agg["states"],
         "probes": agg["probes"],
-        "reach_warnings": [p for p in getattr(mod, "PROBES", []) if not agg["probes"].get(p)],
+        "reach_warnings": [p for p in getattr(mod, "PROBES", []) if not agg["probes"].get(p)
+                           and p not in getattr(mod, "PROBES_ZERO_EXPECTED", {})],
+        "probes_expected_at_zero": getattr(mod, "PROBES_ZERO_EXPECTED", {}),
         "notes": agg["notes"],
         "violation_signatures_unlisted": unlisted,
         "known_findings_met": known_hit,
